@@ -356,6 +356,9 @@ func (fr *frame) runFrame() {
 		}
 		for _, instr := range instrs[n:] {
 			x.steps++
+			if x.hangAt > 0 && x.steps > x.hangAt {
+				panic(pathEnd{kind: "hang", msg: fmt.Sprintf("no progress: declared step bound exceeded (%d steps)", x.steps) + x.whereAmI()})
+			}
 			if x.steps > x.cfg.MaxSteps {
 				panic(pathEnd{kind: "unwind", msg: fmt.Sprintf("step budget %d exhausted", x.cfg.MaxSteps) + x.whereAmI()})
 			}
